@@ -86,12 +86,12 @@ class Mxl(Stream):
                        [["piano__0", [sg.rand_rnote(rng, rest=0, cont=0, rel=0, systems="s")]]]) for c in sc]
             for c in sc:
                 c["toct"] = rng.choice([0, 0, -1]); c["coct"] = rng.choice([0, 0, 1, -1])
-            return fix_relative(no_gap_continuation(sc))
+            return fix_relative(no_gap_continuation(sc), across_gaps=True)
 
         def in_range(sc):
             # music21 folds a pitch outside 0..127 back by octaves; the model (and the statement) stay inside the MIDI range
             try:
-                return all(0 <= 60 + p <= 127 for evs in sg.spec_sounding(sc).values() for p, o, d, v in evs)
+                return all(0 <= 60 + p <= 127 for evs in sg.spec_sounding(sc, keep_ref=True).values() for p, o, d, v in evs)
             except Exception:
                 return True
         for i in range(n):
@@ -135,7 +135,7 @@ class Mxl(Stream):
     def spec(self, case, r):
         if mlang.is_exc(r):
             return {"sig": "mxl-export-raises", "msg": str(r)}
-        want = sg.spec_sounding(case["score"])
+        want = sg.spec_sounding(case["score"], keep_ref=True)
         if any(not (0 <= 60 + p <= 127) for evs in want.values() for p, o, d, v in evs):
             return None                      # outside the notation (MIDI) range
         for nm, evs in zip(r["names"], r["voices"]):
@@ -163,7 +163,7 @@ class Mxl(Stream):
     def shrink(self, case):
         from harness.props.C11 import fix_relative
         for s in sg.shrink_score(case["score"]):
-            yield {"score": fix_relative(no_gap_continuation(s))}
+            yield {"score": fix_relative(no_gap_continuation(s), across_gaps=True)}
 
 
 def streams():
